@@ -16,7 +16,8 @@ import numpy as np
 
 from . import core
 
-LIMIT = 2 ** 29
+LIMIT = 2 ** 29          # TLC: 32-bit integers
+FLOAT_LIMIT = 2 ** 22    # float64: keep len * (product of norms) * 1e-14 far below 1
 LOWER = "abcd"
 
 
@@ -89,7 +90,7 @@ def gen_case(rng, idx):
         xw = set()
         for _ in range(40):
             w = rand_word(rng, letters, rng.randint(5, 12))
-            if P(w) < LIMIT and len(xw) < 4:
+            if P(w) * len(w) < FLOAT_LIMIT and len(xw) < 4:
                 xw.add(w)
         # derived kinds
         C = rand_unimodular(rng, n, 2)
@@ -111,9 +112,9 @@ def gen_case(rng, idx):
         }
         needs_inv = {"dual", "compose_invT", "gln_adjoint", "sln_adjoint"}
 
-        def ok_word(w, kinds):
+        def ok_word(w, kinds, limit=LIMIT):
             for kd in kinds:
-                if P(w, {l: per_letter[kd](l) for l in letters}) * 4 >= LIMIT:
+                if P(w, {l: per_letter[kd](l) for l in letters}) * 4 * len(w) >= limit:
                     return False
                 if kd in needs_inv and fact * P(w) ** n * max(1, P(w)) >= LIMIT:
                     return False
@@ -133,7 +134,7 @@ def gen_case(rng, idx):
         xd = set()
         for _ in range(40):
             w = rand_word(rng, letters, rng.randint(3, 5))
-            if ok_word(w, all_kinds) and len(xd) < 2:
+            if ok_word(w, all_kinds, FLOAT_LIMIT) and len(xd) < 2:
                 xd.add(w)
         # subgroup
         sub = {}
@@ -149,7 +150,7 @@ def gen_case(rng, idx):
         for _ in range(2):
             u = rand_word(rng, letters, rng.randint(1, 3))
             r = u + tuple(swap(l) for l in reversed(u))
-            if P(r) * len(r) < LIMIT:
+            if P(r) * len(r) < FLOAT_LIMIT:
                 rels.add(r)
         kinds = []
         for kd in names:
@@ -169,14 +170,15 @@ def gen_case(rng, idx):
     raise core.MachineryFailure("could not generate a random case within the magnitude bounds")
 
 
-def run(run, quick, tables):
+def prepare(run, quick):
+    """writes the wrapper module; returns (module path, cfg text)"""
     rng = random.Random(run.seed * 7919 + 5)
-    ncases = 8 if quick else 48
+    ncases = 8 if quick else 60
     cases = [gen_case(rng, i) for i in range(ncases)]
     body = "RandCases == <<\n  " + ",\n  ".join(core.tla_expr(c) for c in cases) + "\n>>\nNoCCases == <<>>\n"
     path = core.write_module(run.work + "/RepRand_mod", "RepRand", ["Rep"], body)
     c = core.cfg(constants=dict(Cases=core.Raw("RandCases"), CCases=core.Raw("NoCCases")), invariants=["Theorems", "EmitObs"])
     c = c.replace("Cases = RandCases", "Cases <- RandCases").replace("CCases = NoCCases", "CCases <- NoCCases")
-    tables(run, path, c, "RepRand", quick, workers=min(8, core.NCPU), tag="rand:")
     run.extra["random_cases"] = [dict(id=c["id"], n=c["n"], generators=len(c["lo"]), long_words=sorted("".join(w) for w in c["xw"]))
                                  for c in cases[:6]]
+    return path, c
